@@ -240,6 +240,21 @@ def instantiate(hyps: Sequence[Any], goal: Any, bank: TermBank, lib: SpecLib, ro
         new_formulas: list[Any] = []
         for f, app in apps:
             args = app.children()
+            # an if-then-else in a position rules match on hides the shape of both branches: lift it (pure congruence), the branches are matched next round
+            for pos in sorted({r.pos for r in f.rules if r.shape != "always"}):
+                for v in m.views(args[pos]):
+                    if z3.is_app(v) and v.decl().kind() == z3.Z3_OP_ITE:
+                        key = (app.get_id(), "ite-lift", pos, v.get_id())
+                        if key in inst_keys:
+                            continue
+                        inst_keys.add(key)
+                        a1 = list(args); a1[pos] = v.arg(1)
+                        a2 = list(args); a2[pos] = v.arg(2)
+                        concl = app == z3.If(v.arg(0), f.decl(*a1), f.decl(*a2))
+                        inst = concl if v.get_id() == args[pos].get_id() else z3.Implies(args[pos] == v, concl)
+                        instances.append(inst)
+                        new_formulas.append(inst)
+                        used["ite-lift"] = used.get("ite-lift", 0) + 1
             for r in f.rules:
                 if lemma_rules is not None and r.kind == "lemma" and r.name not in lemma_rules:
                     continue
